@@ -440,6 +440,14 @@ func Run(t *testing.T, cfg Config, body func(c *Case)) {
 		}
 		r.execute(c, body)
 		r.mu.Lock()
+		if len(r.samples) == 0 && len(c.ops) > 0 {
+			// no explicit sample offered: keep the head of the first logged case as the literal sample
+			n := len(c.ops)
+			if n > 10 {
+				n = 10
+			}
+			r.samples = append(r.samples, map[string]any{"case": c.K, "first_ops": append([]string(nil), c.ops[:n]...)})
+		}
 		r.evals++
 		if c.nt {
 			r.nontriv++
